@@ -155,6 +155,56 @@ class OuterFlags(nnx.Module):
         return self.inner(x) * 2.0
 
 
+@onnx_function
+class RecWrap(nnx.Module):
+    """B of the re-entrant nesting A -> B -> A'."""
+
+    def __init__(self, inner):
+        self.inner = inner
+
+    def __call__(self, x):
+        return self.inner(x) + 1.0
+
+
+@onnx_function
+class RecScale(nnx.Module):
+    """A: may hold a RecWrap child that holds another RecScale (the same decorated
+    target is entered again while its own body is still being lowered)."""
+
+    def __init__(self, d: int, seed: int, depth: int = 0, via_wrap: bool = True):
+        self.w = nnx.Param(jnp.asarray(0.5 + 0.25 * W((d,), seed)))
+        child = None
+        if depth > 0:
+            child = RecScale(d, seed + 1, depth - 1, via_wrap)
+            if via_wrap:
+                child = RecWrap(child)
+        self.child = child
+
+    def __call__(self, x):
+        y = x * self.w.value
+        return self.child(y) if self.child is not None else y
+
+
+@onnx_function
+class BaseAffine(nnx.Module):
+    def __init__(self, d: int, seed: int):
+        self.w = nnx.Param(jnp.asarray(0.5 + 0.25 * W((d,), seed)))
+
+    def __call__(self, x):
+        return x * self.w.value
+
+
+class DerivedAffine(BaseAffine):
+    """Undecorated subclass of a decorated class; overrides __call__ and delegates to super()."""
+
+    def __init__(self, d: int, seed: int):
+        super().__init__(d, seed)
+        self.shift = 0.25 * seed
+
+    def __call__(self, x):
+        return super().__call__(x) + self.shift
+
+
 class LateBlock(nnx.Module):
     """Decorated late (by a plan operation), never at import."""
 
@@ -413,6 +463,9 @@ def _twins_plain():
     return lambda x: b(a(x)) + a(x)
 
 
+# float16 programs (narrower than the export's default float)
+BUILDERS["f16_elementwise"] = lambda: _p("f16_elementwise", lambda x, y: x * y + x, [(3, 4), (3, 4)], dtypes=[np.float16, np.float16])
+BUILDERS["f16_cast_chain"] = lambda: _p("f16_cast_chain", lambda x: (jnp.tanh(x.astype(jnp.float32)) * 2.0).astype(jnp.float16) + x, [(3, 4)], dtypes=[np.float16])
 BUILDERS["ublock_twins"] = lambda: _p("ublock_twins", _twins_unique(), [(2, 4)])
 BUILDERS["block_twins"] = lambda: _p("block_twins", _twins_plain(), [(2, 4)])
 
